@@ -261,8 +261,11 @@ class ArakawaC(DimensionConvention[ArakawaCGridKind, ArakawaCIndex]):
         return cast(ArakawaCIndex, (grid_kind, *indexes))
 
     def _make_polygons(self) -> numpy.ndarray:
-        # Make an array of shape (j, i, 2) of all the nodes
-        grid = numpy.stack([self.node.longitude.values, self.node.latitude.values], axis=-1)
+        # Make an array of shape (j, i, 2) of all the nodes.
+        # The longitude might store its dimensions in the other order to the latitude.
+        node_dimensions = (self.node.j_dimension, self.node.i_dimension)
+        longitude = self.node.longitude.transpose(*node_dimensions)
+        grid = numpy.stack([longitude.values, self.node.latitude.values], axis=-1)
 
         # Transform this in to an array of shape (topology.size, 4, 2)
         points = numpy.stack([
